@@ -116,7 +116,16 @@ META = {
         "method that re-enters itself without arguments (recursion standing for a loop: depth = number of iterations). R17 accepts a "
         "transition below any parent when a registered transform with a priority below docutils' Transitions replaces every transition whose "
         "parent is not the document / a section (HideNestedTransitions). R11 also requires ignoreInvalid=True when configured names go to MarkdownIt.disable() (it raises "
-        "ValueError for unknown names, read from markdown_it/main.py)."
+        "ValueError for unknown names, read from markdown_it/main.py). R28 the per-document slug registry (document.myst_slugs / "
+        "env.metadata[doc]['myst_slugs'], also through a local bound once to it) is subscripted only where the same key - compared by text, or as "
+        "the same node-attribute read in either spelling node['k'] / node.get('k') - is known to be in it: a dominating or short-circuit "
+        "membership test, the predicate (lambda / nested function) of the traversal the loop runs over, a key that enumerates the registry, or "
+        "a try catching KeyError; sections spliced in from a separately parsed part (rST include with :parser:) carry slugs the outer "
+        "registry does not hold. R29 a positional read `x[N]` of a local in a configuration validator (the functions named in the fields' "
+        "validator metadata, their closures and helpers) either stands under a length test of x (len(x) ==/!=/>=/>/</<= n facts, truthiness, "
+        "displays, split results) or every validate_field of a front-matter value in merge_file_level (or its helper) sits in a handler that "
+        "catches IndexError (IndexError / LookupError / Exception): either half may change alone, the pair may not (a len() fact of an unknown "
+        "form or a re-bound local is an ANALYSIS-ERROR)."
     ),
     "not_decided": (
         "Implicit AttributeError/KeyError/IndexError/TypeError of arbitrary expressions (only the targeted sub-rules R3, R6, R8, R9, R12, R13, R15, R16) - "
@@ -4180,6 +4189,31 @@ def r25_newline_terminated_source(corpus: Corpus, rep: Report, tier: str):
 # Text nodes; docutils' ClassAttribute transform subscripts the following sibling: TypeError on a Text.
 
 
+def _flag_follows_inline(e: ast.AST | None) -> bool | None:
+    """True: the expression is truthy whenever the `inline` parameter is (`inline`, `bool(inline)`, `inline or X`,
+    `True if inline else X`); False: it can be falsy while `inline` is truthy (`inline and X`); None: not an
+    expression over `inline` that is understood (constants included)."""
+    if e is None:
+        return None
+    if isinstance(e, ast.Name) and e.id == "inline":
+        return True
+    if isinstance(e, ast.Call) and dotted(e.func) == "bool" and len(e.args) == 1 and not e.keywords:
+        return _flag_follows_inline(e.args[0])
+    if isinstance(e, ast.BoolOp):
+        parts = [_flag_follows_inline(v) for v in e.values]
+        if not any(p is not None for p in parts):
+            return None
+        if isinstance(e.op, ast.Or):
+            return True if any(p is True for p in parts) else None
+        # and: every conjunct must follow `inline`; a conjunct that does not mention it can be false
+        if any(p is None and any(isinstance(x, ast.Name) and x.id == "inline" for x in ast.walk(v)) for p, v in zip(parts, e.values)):
+            return None
+        return all(p is True for p in parts)
+    if isinstance(e, ast.IfExp) and _flag_follows_inline(e.test) is True and isinstance(e.body, ast.Constant) and e.body.value is True:
+        return True
+    return None
+
+
 @rule("C01.R26")
 def r26_inline_substitution(corpus: Corpus, rep: Report, tier: str):
     rep.rule("C01.R26", "render_substitution never renders block-level text while its `inline` parameter is true")
@@ -4196,7 +4230,15 @@ def r26_inline_substitution(corpus: Corpus, rep: Report, tier: str):
         arg = next((k_.value for k_ in c.keywords if k_.arg == "inline"), c.args[2] if len(c.args) > 2 else None)
         inline_false = any(isinstance(t, ast.Name) and t.id == "inline" and not pol for t, pol in cfg.guards(cfg.stmt_of(c)))
         k = f"{f.fq}|nested_render_text({'inline=' + unparse(arg) if arg is not None else 'block'})"
-        if inline_false or (isinstance(arg, ast.Constant) and arg.value is True) or (isinstance(arg, ast.Name) and arg.id == "inline"):
+        # the flag may be computed (one call standing for both renders): decide whether it is true whenever `inline` is
+        val = _only_binding(f, arg) if isinstance(arg, ast.Name) and arg.id != "inline" else arg
+        follows = _flag_follows_inline(val)
+        if follows is not None:
+            n += 1  # the inline and the block render in one call
+        if follows is None and val is not None and not inline_false and any(isinstance(x, ast.Name) and x.id == "inline" for x in ast.walk(val)):
+            rep.error("C01.R26", f"{f.module.site(c)}: the `inline` flag `{short(val, 50)}` of the nested render is not a decided function of the `inline` parameter")
+            continue
+        if inline_false or (isinstance(arg, ast.Constant) and arg.value is True) or follows is True:
             rep.ok("C01.R26", k, f.module.site(c), "inline text is rendered inline" if not inline_false else "only reached for a block substitution")
         else:
             rep.violation(
@@ -4367,12 +4409,315 @@ def r27_yaml_text(corpus: Corpus, rep: Report, tier: str):
     rep.expect_min("C01.R27", 2, "YAML keys / values handed to docutils text constructors")
 
 
+# ---------------------------------------------------------------------------
+# R28 reads of the per-document slug registry are under a membership test
+#
+# ``document.myst_slugs`` (= ``env.metadata[doc]["myst_slugs"]``) only holds the headings that THIS parse registered.  A
+# key that comes from anywhere else - a link target, or the ``slug`` attribute of a section that an rST ``include`` with
+# ``:parser:`` spliced in from a separately parsed sub-document - need not be in it: ``registry[key]`` is a KeyError
+# out of the transform unless a membership test (dominating, short-circuit, in the traversal's predicate) or a
+# catching try stands before it.
+
+
+def _is_slug_registry(e: ast.AST) -> bool:
+    if isinstance(e, ast.Attribute) and e.attr == "myst_slugs":
+        return True
+    if isinstance(e, ast.Subscript) and isinstance(e.slice, ast.Constant) and e.slice.value == "myst_slugs":
+        return True
+    if isinstance(e, ast.Call) and e.args:
+        if dotted(e.func) == "getattr" and len(e.args) >= 2 and isinstance(e.args[1], ast.Constant) and e.args[1].value == "myst_slugs":
+            return True
+        if isinstance(e.func, ast.Attribute) and e.func.attr in ("get", "setdefault") and isinstance(e.args[0], ast.Constant) and e.args[0].value == "myst_slugs":
+            return True
+    return False
+
+
+def _only_binding(f: FunctionInfo, nm: ast.Name) -> ast.AST:
+    """The value of the single (annotated or plain) assignment that binds the local, else the name itself."""
+    stores = [x for x in f.local_nodes() if isinstance(x, ast.Name) and x.id == nm.id and isinstance(x.ctx, ast.Store)]
+    if len(stores) == 1:
+        p_ = parent(stores[0])
+        if isinstance(p_, ast.AnnAssign) and p_.target is stores[0] and p_.value is not None:
+            return p_.value
+        if isinstance(p_, ast.Assign) and len(p_.targets) == 1 and p_.targets[0] is stores[0]:
+            return p_.value
+    return nm
+
+
+def _attr_read(e: ast.AST) -> tuple[str, object] | None:
+    """``v["k"]`` / ``v.get("k")`` -> (v, k): the two spellings of reading a docutils node attribute."""
+    if isinstance(e, ast.Subscript) and isinstance(e.value, ast.Name) and isinstance(e.slice, ast.Constant):
+        return (e.value.id, e.slice.value)
+    if isinstance(e, ast.Call) and isinstance(e.func, ast.Attribute) and e.func.attr == "get" and isinstance(e.func.value, ast.Name) and len(e.args) == 1 and isinstance(e.args[0], ast.Constant) and not e.keywords:
+        return (e.func.value.id, e.args[0].value)
+    return None
+
+
+def _membership_fact(facts_, key: ast.expr, reg_text: str, rename: dict[str, str] | None = None) -> bool:
+    """One of the facts says ``key in registry`` (the key compared by text, or as the same node-attribute read)."""
+    rename = rename or {}
+    ka = _attr_read(key)
+    for t, pol in facts_:
+        if not (isinstance(t, ast.Compare) and len(t.ops) == 1):
+            continue
+        if not ((isinstance(t.ops[0], ast.In) and pol) or (isinstance(t.ops[0], ast.NotIn) and not pol)):
+            continue
+        if unparse(t.comparators[0]) != reg_text:
+            continue
+        la = _attr_read(t.left)
+        if la is not None and ka is not None and (rename.get(la[0], la[0]), la[1]) == ka:
+            return True
+        if not rename and unparse(t.left) == unparse(key):
+            return True
+    return False
+
+
+def _predicate_membership(f: FunctionInfo, key: ast.expr, reg_text: str) -> bool:
+    """The key is an attribute of the variable of a loop over a traversal whose predicate (a lambda or a nested
+    function, i.e. a closure that sees the same registry name) requires ``<that attribute> in registry``."""
+    from ..flow import facts as _atomic
+
+    ka = _attr_read(key)
+    if ka is None:
+        return False
+    var = ka[0]
+    for lp in f.local_nodes():
+        if not (isinstance(lp, ast.For) and isinstance(lp.target, ast.Name) and lp.target.id == var and isinstance(lp.iter, ast.Call)):
+            continue
+        if not any(key is x for x in ast.walk(lp)):
+            continue
+        if any(isinstance(x, ast.Name) and x.id == var and isinstance(x.ctx, ast.Store) and x is not lp.target and not isinstance(parent(x), ast.AugAssign) for x in ast.walk(lp)):
+            continue
+        it = lp.iter
+        if dotted(it.func) in ("list", "tuple") and len(it.args) == 1 and isinstance(it.args[0], ast.Call):
+            it = it.args[0]
+        for a in list(it.args) + [k_.value for k_ in it.keywords]:
+            rets: list[ast.expr] = []
+            pname = None
+            if isinstance(a, ast.Lambda) and len(a.args.args) == 1:
+                pname, rets = a.args.args[0].arg, [a.body]
+            elif isinstance(a, ast.Name):
+                P = f.module.functions.get(f"{f.qualname}.{a.id}")
+                if P is not None and not P.is_lambda and len(P.node.args.args) == 1:
+                    pname = P.node.args.args[0].arg
+                    rets = [r_.value for r_ in P.local_nodes() if isinstance(r_, ast.Return) and r_.value is not None]
+            if pname is None or not rets:
+                continue
+            if all((isinstance(rv, ast.Constant) and rv.value is False) or _membership_fact(_atomic(rv, True), key, reg_text, {pname: var}) for rv in rets):
+                return True
+    return False
+
+
+@rule("C01.R28")
+def r28_slug_registry_reads(corpus: Corpus, rep: Report, tier: str):
+    rep.rule("C01.R28", "the per-document slug registry (myst_slugs) is subscripted only under a membership test of the same key (or a try catching KeyError)")
+    n = 0
+    for f in corpus.all_functions():
+        if f.is_lambda:
+            continue
+        for s in f.local_nodes():
+            if not (isinstance(s, ast.Subscript) and isinstance(s.ctx, ast.Load) and not isinstance(s.slice, ast.Slice)):
+                continue
+            reg = s.value
+            if not (_is_slug_registry(reg) or (isinstance(reg, ast.Name) and _is_slug_registry(_only_binding(f, reg)))):
+                continue
+            key = s.slice
+            n += 1
+            k = f"{f.fq}|{unparse(reg)}[{unparse(key)}]"
+            reg_text = unparse(reg)
+            # a key that enumerates the registry itself
+            if isinstance(key, ast.Name):
+                own = False
+                for lp in f.local_nodes():
+                    if isinstance(lp, (ast.For, ast.comprehension)) and any(s is x for x in ast.walk(lp if isinstance(lp, ast.For) else parent(lp))):
+                        tg = lp.target.elts[0] if isinstance(lp.target, ast.Tuple) and lp.target.elts else lp.target
+                        itx = lp.iter
+                        if isinstance(itx, ast.Call) and isinstance(itx.func, ast.Attribute) and itx.func.attr in ("items", "keys") and not itx.args:
+                            itx = itx.func.value if (itx.func.attr == "keys" or isinstance(lp.target, ast.Tuple)) else itx
+                        elif isinstance(lp.target, ast.Tuple):
+                            continue
+                        if isinstance(tg, ast.Name) and tg.id == key.id and unparse(itx) == reg_text:
+                            own = True
+                if own:
+                    rep.ok("C01.R28", k, f.module.site(s), "the key enumerates the registry")
+                    continue
+            if _inside_try_catching(s, "KeyError") or _inside_try_catching(s, "LookupError"):
+                rep.ok("C01.R28", k, f.module.site(s), "inside a try that catches KeyError")
+            elif _membership_fact(_facts_at(f, s), key, reg_text):
+                rep.ok("C01.R28", k, f.module.site(s), "under a membership test of the key")
+            elif _predicate_membership(f, key, reg_text):
+                rep.ok("C01.R28", k, f.module.site(s), "the traversal's predicate requires the key to be registered")
+            else:
+                rep.violation(
+                    "C01.R28",
+                    k,
+                    f.module.site(s),
+                    f"`{short(s, 50)}` reads the document's slug registry without `{unparse(key)} in {reg_text}`: the registry only holds the headings this parse "
+                    "registered; a section spliced in from a separately parsed part (rST `.. include:: x.md` with `:parser:` inside {eval-rst}) carries a slug that is "
+                    "not in it -> KeyError out of the transform",
+                )
+    rep.expect_min("C01.R28", 2, "subscript reads of the myst_slugs registry (ResolveAnchorIds, the reference resolver)")
+
+
+# ---------------------------------------------------------------------------
+# R29 a validator's unguarded positional read of the front-matter value is caught at the file-level merge
+#
+# The configuration validators also run on what a document writes under ``myst:`` in its front matter.  ``value[1]``
+# without a dominating length test is an IndexError for a short list; that is harmless exactly as long as the handler
+# around ``validate_field`` in ``merge_file_level`` catches it.  Either half may change alone; the pair may not.
+
+_LEN1_SPLITS = ("split", "rsplit", "splitlines", "partition", "rpartition")
+
+
+def _len_proves(facts_, name: str, need: int) -> str:
+    """'yes' | 'no' | 'unknown' (a len() fact about the name that is not understood)."""
+    verdict = "no"
+    for t, pol in facts_:
+        if isinstance(t, ast.Name) and t.id == name:
+            if pol and need <= 1:
+                return "yes"
+            continue
+        mentions = any(isinstance(c, ast.Call) and dotted(c.func) == "len" and len(c.args) == 1 and isinstance(c.args[0], ast.Name) and c.args[0].id == name for c in ast.walk(t))
+        if not mentions:
+            continue
+        if isinstance(t, ast.Compare) and len(t.ops) == 1:
+            l, r, op = t.left, t.comparators[0], t.ops[0]
+            flip = {ast.Lt: ast.Gt, ast.Gt: ast.Lt, ast.LtE: ast.GtE, ast.GtE: ast.LtE}
+            if isinstance(l, ast.Constant) and isinstance(r, ast.Call):
+                l, r = r, l
+                op = flip.get(type(op), type(op))()
+            if isinstance(l, ast.Call) and dotted(l.func) == "len" and isinstance(r, ast.Constant) and isinstance(r.value, int) and not isinstance(r.value, bool):
+                c = r.value
+                lo = None  # proven lower bound of len(name)
+                if (isinstance(op, ast.Eq) and pol) or (isinstance(op, ast.NotEq) and not pol):
+                    lo = c
+                elif (isinstance(op, ast.GtE) and pol) or (isinstance(op, ast.Lt) and not pol):
+                    lo = c
+                elif (isinstance(op, ast.Gt) and pol) or (isinstance(op, ast.LtE) and not pol):
+                    lo = c + 1
+                else:
+                    continue  # an upper bound: says nothing
+                if lo >= need:
+                    return "yes"
+                continue
+        verdict = "unknown"
+    return verdict
+
+
+@rule("C01.R29")
+def r29_validator_positional_reads(corpus: Corpus, rep: Report, tier: str):
+    rep.rule("C01.R29", "a configuration validator's positional read `x[N]` without a dominating length test is caught by the handler around validate_field in the file-level merge")
+    g = get_callgraph(corpus)
+    fields = _config_fields(corpus)
+    cm, dv = corpus.mod("config.main"), corpus.mod("config.dc_validators")
+    V: dict[str, FunctionInfo] = {}
+    for meta in fields.values():
+        v = meta.get("validator")
+        if v is None:
+            continue
+        for nm in ast.walk(v):
+            if isinstance(nm, ast.Name):
+                for m in (cm, dv):
+                    for q, fn in m.functions.items():
+                        if not fn.is_lambda and (q == nm.id or q.startswith(nm.id + ".")):
+                            V[fn.fq] = fn
+    if len(V) < 5:
+        raise AnchorMissing(f"only {len(V)} configuration validators found in the field metadata")
+    work = list(V.values())
+    while work:  # helpers a validator was split into
+        fn = work.pop()
+        for call, targets in g.callees(fn):
+            for t in targets:
+                if isinstance(t, FunctionInfo) and not t.is_lambda and t.module in (cm, dv) and t.fq not in V:
+                    V[t.fq] = t
+                    work.append(t)
+    # the applications of a front-matter value and what their handlers catch
+    mfl = corpus.func("config.main:merge_file_level")
+
+    def is_validate(c: ast.AST) -> bool:
+        return isinstance(c, ast.Call) and (dotted(c.func) or "").split(".")[-1] in ("validate_field", "validate_fields")
+
+    def catches_index_error(f: FunctionInfo, node: ast.AST) -> bool:
+        return any(_inside_try_catching(node, x) for x in ("IndexError", "LookupError"))
+
+    sites: list[tuple[FunctionInfo, ast.AST, bool]] = [(mfl, c, catches_index_error(mfl, c)) for c in mfl.local_nodes() if is_validate(c)]
+    for call, targets in g.callees(mfl):
+        for t in g.flat_targets(targets):
+            if t.is_lambda or t.fq == mfl.fq or t.module is not mfl.module or t.fq in V:
+                continue
+            for c in t.local_nodes():
+                if is_validate(c):
+                    sites.append((t, c, catches_index_error(t, c) or catches_index_error(mfl, call)))
+    if not sites:
+        rep.error("C01.R29", f"{mfl.site()}: merge_file_level no longer validates the front-matter values with validate_field (directly or in a helper)")
+        return
+    open_sites = [(f, c) for f, c, ok in sites if not ok]
+    n = 0
+    seen_keys: set[str] = set()
+    for fn in sorted(V.values(), key=lambda x: x.fq):
+        params = set(fn.params)
+        for s in fn.local_nodes():
+            if not (isinstance(s, ast.Subscript) and isinstance(s.ctx, ast.Load) and isinstance(s.value, ast.Name)):
+                continue
+            idx = s.slice
+            if isinstance(idx, ast.UnaryOp) and isinstance(idx.op, ast.USub) and isinstance(idx.operand, ast.Constant) and isinstance(idx.operand.value, int):
+                need = idx.operand.value
+            elif isinstance(idx, ast.Constant) and isinstance(idx.value, int) and not isinstance(idx.value, bool):
+                need = idx.value + 1
+            else:
+                continue
+            name = s.value.id
+            k = f"{stmt_key(fn, enclosing_stmt_(s))}|{unparse(s)}"
+            if k in seen_keys:
+                continue
+            seen_keys.add(k)
+            n += 1
+            site = fn.module.site(s)
+            stores = [x for x in fn.local_nodes() if isinstance(x, ast.Name) and x.id == name and isinstance(x.ctx, ast.Store)]
+            d = _single_def(fn, s.value)
+            if d is not s.value:
+                if isinstance(d, (ast.Tuple, ast.List)) and not any(isinstance(e, ast.Starred) for e in d.elts) and len(d.elts) >= need:
+                    rep.ok("C01.R29", k, site, "a display of sufficient length")
+                    continue
+                if isinstance(d, ast.Call) and isinstance(d.func, ast.Attribute) and d.func.attr in _LEN1_SPLITS and (need <= 1 or (d.func.attr.endswith("partition") and need <= 3)):
+                    rep.ok("C01.R29", k, site, "a split result always has a first element")
+                    continue
+            proved = _len_proves(_facts_at(fn, s), name, need)
+            if proved == "yes":
+                rep.ok("C01.R29", k, site, "under a length test")
+                continue
+            if not open_sites:
+                rep.ok("C01.R29", k, site, "no length test, but every validate_field of a front-matter value sits in a handler that catches IndexError")
+                continue
+            binder = parent(stores[0]) if len(stores) == 1 else None
+            while isinstance(binder, (ast.Tuple, ast.List)):
+                binder = parent(binder)  # `for key, val in value.items()`
+            direct = (name in params and not stores) or isinstance(binder, (ast.For, ast.comprehension))
+            if proved == "unknown" or not direct:
+                rep.error("C01.R29", f"{site}: `{unparse(s)}` in {fn.qualname}: the length of `{name}` at this read is not decided (a len() test of an unknown form, or a re-bound local)")
+                continue
+            of, oc = open_sites[0]
+            rep.violation(
+                "C01.R29",
+                k,
+                site,
+                f"`{unparse(s)}` in {fn.qualname} runs before any test of len({name}), and the handler around `{short(oc, 40)}` in {of.qualname} does not catch IndexError: "
+                "front matter such as `myst: {sub_delimiters: []}` (a list that is too short) raises IndexError out of the parse instead of a [myst.topmatter] warning",
+                path=[of.module.site(oc)],
+            )
+    if n == 0:
+        rep.ok("C01.R29", "validators|positional reads", cm.rel, "no validator reads its value by position")
+    else:
+        rep.expect_min("C01.R29", 1, "positional reads in configuration validators")
+
+
 RULES = [
     r1_failure_mode_closure, r2_token_line, r3_html_attr_none, r4_reentry_guards, r5_loop_progress, r6_yaml_narrowing, r7_single_registration,
     r8_nullable_env_slots, r9_document_attributes, r10_config_divisors, r11_disable_syntax, r12_handler_attributes, r13_rebound_loop_key,
     r14_heading_offset, r15_registry_none, r16_settings_attributes, r17_transition_parent,
     r18_document_chosen_code, r19_pickled_config, r20_transform_reapplication, r21_detached_pending, r22_pending_components, r23_single_removal,
     r24_empty_block_quotes, r25_newline_terminated_source, r26_inline_substitution, r27_yaml_text,
+    r28_slug_registry_reads, r29_validator_positional_reads,
 ]
 
 
@@ -5009,6 +5354,44 @@ def mutants(corpus: Corpus):
     )
     if iso is not None:
         out.append(Mutant("c01-heading-implicit-name-isolation-reverted", "C01.R7", base.rel, splice(base.src, iso, f"{unparse(iso.targets[0])}.append({unparse(iso.value.elts[0])})"), expect="render_heading|"))
+    # --- R28: the traversal predicate of the title refresh only asks for the attribute, not for its registration (seed j/c01-2) ---
+    tm = corpus.mod("mdit_to_docutils.transforms")
+    f = tm.func("ResolveAnchorIds.apply")
+    lam_cmp = None
+    for lp in f.local_nodes():
+        if isinstance(lp, ast.For) and isinstance(lp.iter, ast.Call):
+            for a in lp.iter.args:
+                if isinstance(a, ast.Lambda) and len(a.args.args) == 1:
+                    for c_ in ast.walk(a.body):
+                        if isinstance(c_, ast.Compare) and len(c_.ops) == 1 and isinstance(c_.ops[0], ast.In) and _attr_read(c_.left) is not None and _attr_read(c_.left)[0] == a.args.args[0].arg:
+                            lam_cmp = (c_, a.args.args[0].arg, _attr_read(c_.left)[1])
+    if lam_cmp is not None:
+        out.append(Mutant("c01-slug-refresh-predicate-weakened", "C01.R28", tm.rel, splice(tm.src, lam_cmp[0], f"{lam_cmp[2]!r} in {lam_cmp[1]}"), expect="ResolveAnchorIds.apply|"))
+    else:
+        out.append(("c01-slug-refresh-predicate-weakened", "ResolveAnchorIds.apply: no traversal lambda with a registry membership test"))
+    sc = find_node(
+        f,
+        lambda n: isinstance(n, ast.Compare) and len(n.ops) == 1 and isinstance(n.ops[0], ast.In) and isinstance(n.left, ast.Name) and isinstance(parent(n), ast.BoolOp)
+        and isinstance(n.comparators[0], ast.Name) and _is_slug_registry(_only_binding(f, n.comparators[0])),
+    )
+    if sc is not None:
+        out.append(Mutant("c01-slug-lookup-membership-dropped", "C01.R28", tm.rel, splice(tm.src, sc, f"{unparse(sc.left)} is not None"), expect="ResolveAnchorIds.apply|"))
+    else:
+        out.append(("c01-slug-lookup-membership-dropped", "ResolveAnchorIds.apply: no short-circuit membership test of the slug registry"))
+    # --- R29: the length test of check_inventories weakened AND the merge handler narrowed (seed j/c01-1 is the same pair) ---
+    f = cm.func("merge_file_level")
+    h = find_node(f, lambda n: isinstance(n, ast.ExceptHandler) and n.type is not None and unparse(n.type) == "Exception")
+    ci_ = cm.functions.get("check_inventories")
+    lt = find_node(
+        ci_,
+        lambda n: isinstance(n, ast.Compare) and len(n.ops) == 1 and isinstance(n.ops[0], ast.NotEq) and isinstance(n.left, ast.Call) and dotted(n.left.func) == "len"
+        and isinstance(n.comparators[0], ast.Constant),
+    ) if ci_ is not None else None
+    if h is not None and lt is not None and h.lineno > lt.end_lineno:
+        src1 = splice(cm.src, h.type, "(TypeError, ValueError)")
+        out.append(Mutant("c01-validator-length-test-weakened-and-merge-handler-narrowed", "C01.R29", cm.rel, splice(src1, lt, f"{unparse(lt.left)} > {unparse(lt.comparators[0])}"), expect="check_inventories|"))
+    else:
+        out.append(("c01-validator-length-test-weakened-and-merge-handler-narrowed", "check_inventories' length test / merge_file_level's `except Exception` not found"))
     return out
 
 
